@@ -260,7 +260,7 @@ def _both(ctx, normal, chk, name, spec, opts, fam, timeout):
     if 'hang' in a:
         ctx.violation(name, 'does not return within %.0f s on a %d-node input' % (timeout, spec['shape'][0]), case=case, entry=name,
                       kind='hang', family=fam, default_n_iter=(params.get('n_iter', -1) == -1),
-                      tol_zero=(params.get('tol_optimization') == 0))
+                      tol_zero=(params.get('tol_optimization') == 0), resolution_zero=(params.get('resolution') == 0))
         return
     if 'crash' in a:
         ctx.violation(name, 'the interpreter died (exit %s)' % a['crash'], case=case, entry=name, kind='crash', family=fam)
@@ -279,3 +279,1067 @@ def _both(ctx, normal, chk, name, spec, opts, fam, timeout):
                       case=case, entry=name, kind='oob_index', family=fam, msg=b.get('msg'), tb=b.get('tb'))
     if len(ctx.samples) < 6 and fam != 'regular':
         ctx.sample(dict(name=name, family=fam, m=spec, params=params))
+
+
+# =====================================================================================================================
+# KERNEL CORRESPONDENCE — the flat, checked-access, fuelled models of Model/Safety.v, Model/Safety2.v (and Model/Vote.v),
+# which the theorems of Props/C17.v are about, evaluated inside Coq (vm_compute) and the COMPILED kernels of the scratch
+# build called directly (harness/workers/c17.py) on the same explicit arrays.
+#
+# Inputs are well-formed CSR arrays of small graphs (exhaustive for n <= 3, structured random / tie-rich / degenerate up to
+# n = 10) whose weights and parameters are small integers or dyadic rationals, so that the float32 / float64 arithmetic of
+# the kernels is EXACT and the comparison with the exact-rational model is an equality. Where exactness cannot be known
+# from the inputs alone (D-iteration, push, Brandes' float32 delta) a Python mirror of the arithmetic checks that every
+# intermediate value is representable; an input that is not is dropped and counted (D-iteration, push) or compared within
+# the float32 tolerance (Brandes, which takes no decision on a float). The model runs first: the kernel is never called on
+# an input on which the model reports an out-of-bounds access.
+# =====================================================================================================================
+from fractions import Fraction as Fr
+
+from .. import common
+from ..common import cnat, cz, cq, cbool, clist, coq_eval
+
+K_IMPORTS = ['Base.Util', 'Model.Vote', 'Model.Wl', 'Model.Safety', 'Model.Safety2', 'Model.Modularity', 'Model.Louvain',
+             'Proofs.SafetyProofs', 'Proofs.LouvainTermination', 'Proofs.LouvainFlatTermination']
+K_PRELUDE = '''
+Definition qp (q : Q) : Z * Z := let r := Qred q in (Qnum r, Zpos (Qden r)).
+Definition kmap {A B} (f : A -> B) (r : Safety.kres A) : Safety.kres B :=
+  match r with Safety.KOk a => Safety.KOk (f a) | Safety.OOB => Safety.OOB | Safety.OutOfFuel => Safety.OutOfFuel end.
+Definition sh_dit (r : Safety.dstate * nat) := let '(s, f, res, k) := r in (map qp s, map qp f, qp res, k).
+Definition sh_lv (r : list nat * Q * nat) := let '(l, inc, p) := r in (l, qp inc, p).
+Definition sh_br (r : list Q * list (nat * nat)) := (map qp (fst r), snd r).
+(* the fuel of optimize_core_flat_terminates, computed from the arguments *)
+Definition lv_fuel (n : nat) (indptr indices : list nat) (data ow iw : list Q) (res tol : Q) (labels : list nat) : nat :=
+  let g := csr_graph n indptr indices data in
+  pass_fuel (objective_bound g ow iw res) (objective g ow iw res labels) tol.
+'''
+TOL32 = 2e-4
+K_TIMEOUT = 10.0
+LCM10 = 2520          # rand() % s == (rand() % 2520) % s for every s <= 10 (the stream is handed to Coq reduced: nat is unary)
+LEIDEN_FUEL_CAP = 4096
+
+
+def nl(xs):
+    return clist(xs, cnat)
+
+
+def zl(xs):
+    return clist(xs, cz)
+
+
+def ql(xs):
+    return clist(xs, cq)
+
+
+def fr_pair(p):
+    return Fr(p[0], p[1])
+
+
+def f32_ok(x):
+    """The rational x is a float32 (24-bit significand, exponent far inside the range)."""
+    x = Fr(x)
+    if x == 0:
+        return True
+    num, den = abs(x.numerator), x.denominator
+    if den & (den - 1):
+        return False
+    while num % 2 == 0:
+        num //= 2
+    return num.bit_length() <= 24 and den.bit_length() <= 90 and abs(x) < 2 ** 90
+
+
+def gran(xs):
+    """Smallest g with every x a multiple of 2^-g; None if some x is not dyadic."""
+    g = 0
+    for x in xs:
+        d = Fr(x).denominator
+        if d & (d - 1):
+            return None
+        g = max(g, d.bit_length() - 1)
+    return g
+
+
+def to_csr(n, W):
+    """W: {(i, j): weight} -> canonical CSR arrays (sorted columns)."""
+    indptr, indices, data = [0], [], []
+    rows = [[] for _ in range(n)]
+    for (i, j) in W:
+        rows[i].append(j)
+    for i in range(n):
+        for j in sorted(rows[i]):
+            indices.append(j)
+            data.append(Fr(W[(i, j)]))
+        indptr.append(len(indices))
+    return indptr, indices, data
+
+
+def transpose(n, W):
+    return {(j, i): w for (i, j), w in W.items()}
+
+
+def tie_shape(rng):
+    spec, n, shape = symmetric_unit(rng)
+    return 'tie_' + shape, n, {(i, j) for (i, j, _) in spec['coo']}
+
+
+def degenerate_shape(rng, directed):
+    fam = rng.choice(DEGENERATE)
+    spec, n, _ = degenerate_matrix(rng, fam, 'sq' if directed else 'sym', 10)
+    return 'deg_' + fam, n, {(i, j) for (i, j, _) in spec['coo']}
+
+
+def kgraph(rng, directed, nmax=10, loops=True):
+    """(family, n, edge set): tie-rich / degenerate / structured random; undirected ones as symmetric edge sets."""
+    u = rng.random()
+    if u < 0.3:
+        return tie_shape(rng)
+    if u < 0.55:
+        fam, n, E = degenerate_shape(rng, directed)
+    else:
+        n, EE, f = gen.random_graph(rng, nmax, directed=directed, nmin=1, allow_loops=loops)
+        fam, E = 'rnd_' + f, set(EE)
+    if n > nmax:
+        return tie_shape(rng)
+    if not loops:
+        E = {(i, j) for (i, j) in E if i != j}
+    return fam, n, E
+
+
+def weights(rng, E, symmetric, kind=None):
+    """{edge: Fraction}: unit / small integers / eighths; symmetric edge sets get symmetric weights."""
+    kind = kind or rng.choice(['unit', 'unit', 'int', 'eighth'])
+    W = {}
+    for (i, j) in sorted(E):
+        if symmetric and (j, i) in W:
+            W[(i, j)] = W[(j, i)]
+        elif kind == 'unit':
+            W[(i, j)] = Fr(1)
+        elif kind == 'int':
+            W[(i, j)] = Fr(rng.randint(1, 3))
+        else:
+            W[(i, j)] = Fr(rng.randint(1, 8), 8)
+    return W, kind
+
+
+def exhaustive_directed(nmax=3):
+    for n in range(0, nmax + 1):
+        if n == 0:
+            yield 'exh_0', 0, set()
+            continue
+        for E in gen.all_directed(n, loops=True):
+            yield 'exh_%d' % n, n, set(E)
+
+
+def kres_of(v):
+    """Parsed Coq value of a [kres] / [vres] -> ('ok', x) | ('oob', site) | ('fuel', None)."""
+    tag = v[0]
+    if tag in ('KOk', 'VOk'):
+        return 'ok', v[1]
+    if tag == 'OOB':
+        return 'oob', None
+    if tag == 'VOOB':
+        return 'oob', v[1][0] if len(v) > 1 else None
+    if tag == 'OutOfFuel':
+        return 'fuel', None
+    raise ValueError('unexpected model value %r' % (v,))
+
+
+class KStats:
+    def __init__(self, name, mode, tie):
+        self.name, self.mode, self.tie = name, mode, tie
+        self.d = dict(evaluated=0, compared=0, agree=0, dropped_inexact=0, tolerance_compared=0, kernel_not_run_model_oob=0,
+                      kernel_not_run_model_out_of_fuel=0, outside_contract=0, violations=0)
+
+    def as_dict(self):
+        out = dict(model_vs_kernel=self.mode, tie=self.tie)
+        out.update(self.d)
+        return out
+
+
+def run_cases(ctx, impl, st, site, fn, cases, compare, shard, mod='c17', skip_count=False):
+    """cases: dicts with fam, args (worker), expr (Coq), contract (bool: inside the hypotheses of the kernel's theorems with
+    the stated fuel). compare(case, model_value, impl_value) -> None | 'dropped' | 'tolerance' | (what, expected, observed)."""
+    if not cases:
+        return
+    vals = coq_eval('c17k_' + st.name, K_IMPORTS, [c['expr'] for c in cases], prelude=K_PRELUDE, shard=shard, timeout=900)
+    for c, v in zip(cases, vals):
+        st.d['evaluated'] += 1
+        if not skip_count:
+            ctx.count('kernel:%s:%s' % (st.name, c['fam']), (st.name, c['args']), c.get('nontrivial', True))
+        case = dict(kernel=site, family=c['fam'], args=c['args'])
+        tag, mv = kres_of(v)
+        if not c.get('contract', True):
+            st.d['outside_contract'] += 1
+        if tag != 'ok':
+            if c.get('contract', True):
+                st.d['violations'] += 1
+                ctx.violation(site, 'the flat model returns %s on an input inside the contract of its theorems (fuel as stated there)'
+                              % ('an out-of-bounds access' if tag == 'oob' else 'OutOfFuel'), case=case, kind='model_envelope',
+                              family=c['fam'], expected='KOk', observed=common.jsonable(v))
+            st.d['kernel_not_run_model_oob' if tag == 'oob' else 'kernel_not_run_model_out_of_fuel'] += 1
+            continue
+        r = impl.call(mod, fn, c['args'], timeout=K_TIMEOUT)
+        ctx.traces += 1
+        if 'hang' in r:
+            st.d['violations'] += 1
+            ctx.violation(site, 'the compiled kernel does not return within %.0f s where the model returns' % K_TIMEOUT, case=case,
+                          kind='hang', family=c['fam'], expected=common.jsonable(mv), kernel_call=True)
+            continue
+        if 'crash' in r:
+            st.d['violations'] += 1
+            ctx.violation(site, 'the compiled kernel killed the interpreter (exit %s) where the model returns' % r['crash'],
+                          case=case, kind='crash', family=c['fam'], expected=common.jsonable(mv), kernel_call=True)
+            continue
+        if 'ok' not in r:
+            st.d['violations'] += 1
+            ctx.violation(site, 'the compiled kernel raised where the model returns', case=case, kind='model_correspondence',
+                          family=c['fam'], expected=common.jsonable(mv), observed=r)
+            continue
+        res = compare(c, mv, r['ok'])
+        if res == 'dropped':
+            st.d['dropped_inexact'] += 1
+            ctx.margin_dropped += 1
+            continue
+        st.d['compared'] += 1
+        if res == 'tolerance':
+            st.d['tolerance_compared'] += 1
+            res = None
+        if res is None:
+            st.d['agree'] += 1
+            if st.d['agree'] == 1:
+                ctx.sample(dict(kind='kernel_correspondence', kernel=site, family=c['fam'], args=c['args'],
+                                model=common.jsonable(mv)), limit=20)
+            continue
+        what, exp, obs = res
+        st.d['violations'] += 1
+        ctx.violation(site, 'compiled kernel differs from its flat model: ' + what, case=case, kind='model_correspondence',
+                      family=c['fam'], expected=common.jsonable(exp), observed=common.jsonable(obs))
+
+
+# ---- 1. triangles ---------------------------------------------------------------------------------------------------
+def k_triangles(ctx, impl, rng, quick):
+    st = KStats('count_triangles_from_dag', 'exact (integers)', 'direct')
+    cases = []
+
+    def add(fam, n, E, reverse=False):
+        indptr, indices, _ = to_csr(n, {e: 1 for e in E})
+        if reverse:     # rows in decreasing column order: still well formed (csr_pat_wf does not ask for sorted rows)
+            indices = [j for i in range(n) for j in reversed(indices[indptr[i]:indptr[i + 1]])]
+        cases.append(dict(fam=fam, args=dict(indptr=indptr, indices=indices), nontrivial=len(indices) > 0,
+                          expr='Safety.count_triangles_flat %s %s' % (nl(indptr), nl(indices))))
+    for fam, n, E in exhaustive_directed(3):
+        add(fam, n, E)
+    for _ in range(300 if quick else 3000):
+        fam, n, E = kgraph(rng, directed=rng.random() < 0.4)
+        u = rng.random()
+        if u < 0.6:      # what count_triangles hands over: the DAG i -> j, i < j, of an undirected graph
+            add(fam + '_dag', n, {(min(i, j), max(i, j)) for (i, j) in E if i != j})
+        elif u < 0.9:
+            add(fam, n, E)
+        else:
+            add(fam + '_unsorted', n, E, reverse=True)
+
+    def compare(c, mv, r):
+        if r['seq'] != mv or r['par'] != mv:
+            return 'number of triangles', mv, r
+    run_cases(ctx, impl, st, 'count_triangles_from_dag', 'triangles', cases, compare, 150)
+    return st
+
+
+# ---- 3. MinHeap + compute_core --------------------------------------------------------------------------------------
+def k_core(ctx, impl, rng, quick):
+    st = KStats('compute_core', 'exact (integers)', 'direct (MinHeap is reachable only through compute_core)')
+    cases = []
+
+    def add(fam, n, E):
+        indptr, indices, _ = to_csr(n, {e: 1 for e in E})
+        cases.append(dict(fam=fam, args=dict(indptr=indptr, indices=indices), nontrivial=len(indices) > 0, n=n,
+                          expr='Safety.ccompute_core Safety.cheap_resize %s %s' % (nl(indptr), nl(indices))))
+    for fam, n, E in exhaustive_directed(3):
+        add(fam, n, E)
+    for _ in range(300 if quick else 3000):
+        fam, n, E = kgraph(rng, directed=rng.random() < 0.3)
+        add(fam, n, E)
+
+    def compare(c, mv, r):
+        labels, pops = mv
+        if pops != c['n']:
+            return 'number of pops of the model is not n', c['n'], pops
+        if r['labels'] != list(labels) or r['indptr_after'] != c['args']['indptr'] or r['indices_after'] != c['args']['indices']:
+            return 'core values', list(labels), r
+    run_cases(ctx, impl, st, 'compute_core', 'core', cases, compare, 150)
+    return st
+
+
+# ---- 2. vote_update -------------------------------------------------------------------------------------------------
+def k_vote(ctx, impl, rng, quick):
+    st = KStats('vote_update', 'exact (votes are sums of at most 10 dyadic weights)',
+                'direct; Model/Vote.v is also tied by the C13 correspondence')
+    cases = []
+
+    def add(fam, n, W, labels, index):
+        indptr, indices, data = to_csr(n, W)
+        cases.append(dict(fam=fam, nontrivial=len(indices) > 0 and len(index) > 0,
+                          args=dict(indptr=indptr, indices=indices, data=[float(x) for x in data], labels=labels, index=index),
+                          expr='Vote.vote_update Vote.repaired_kernel %s %s %s %s %s' % (nl(indptr), nl(indices), ql(data), zl(labels), nl(index))))
+    exh = [g for g in exhaustive_directed(3) if g[1] >= 1]
+    for fam, n, E in (rng.sample(exh, 150) if quick else exh):
+        labels = [rng.choice([-1, -1, 0, 1, n + 1]) for _ in range(n)]
+        add(fam, n, {e: Fr(rng.choice([1, 1, 2, Fr(1, 2)])) for e in E}, labels, list(range(n)))
+    for _ in range(350 if quick else 3500):
+        fam, n, E = kgraph(rng, directed=rng.random() < 0.6)
+        if n == 0:
+            continue
+        W, kind = weights(rng, E, symmetric=False)
+        top = rng.choice([1, 2, n - 1, n, n + 5, 100])
+        labels = [rng.choice([-1, -1, rng.randint(0, max(top, 0))]) for _ in range(n)]
+        u = rng.random()
+        if u < 0.5:
+            index = [i for i in range(n) if labels[i] < 0]
+        elif u < 0.8:
+            index = list(range(n))
+            rng.shuffle(index)
+        else:
+            index = [rng.randrange(n) for _ in range(rng.randint(0, n + 2))]       # repeats are inside the contract
+        add('%s_%s' % (fam, kind), n, W, labels, index)
+
+    def compare(c, mv, r):
+        if r['ret'] != list(mv) or r['labels_after'] != list(mv) or r['index_after'] != c['args']['index'] \
+                or r['data_after'] != c['args']['data']:
+            return 'labels after the sweep', list(mv), r
+    run_cases(ctx, impl, st, 'vote_update', 'vote', cases, compare, 150)
+    return st
+
+
+# ---- 5a. D-iteration ------------------------------------------------------------------------------------------------
+def dit_mirror(indptr, indices, data, scores, fluid, damping, n_iter, tol):
+    """Exact replay of the float operations of diffusion(); True iff every intermediate value is a float32."""
+    ok = [True]
+
+    def chk(x):
+        if not f32_ok(x):
+            ok[0] = False
+        return x
+    n = len(fluid)
+    scores, fluid = list(scores), list(fluid)
+    restart = chk(1 - damping)
+    residu = restart
+    for _ in range(n_iter):
+        for i in range(n):
+            sent = fluid[i]
+            if sent > 0:
+                scores[i] = chk(scores[i] + sent)
+                fluid[i] = Fr(0)
+                j1, j2 = indptr[i], indptr[i + 1]
+                tmp = chk(sent * damping)
+                if j2 != j1:
+                    for jj in range(j1, j2):
+                        fluid[indices[jj]] = chk(fluid[indices[jj]] + chk(tmp * data[jj]))
+                    removed = chk(sent * restart)
+                else:
+                    removed = sent
+                residu = chk(residu - removed)
+        if residu < chk(tol * restart):
+            break
+    return ok[0]
+
+
+def k_diteration(ctx, impl, rng, quick):
+    st = KStats('diffusion', 'exact (dyadic inputs; an input whose exact trajectory leaves float32 is dropped and counted)', 'direct')
+    cases = []
+
+    def add(fam, n, W, scores, fluid, damping, n_iter, tol):
+        indptr, indices, data = to_csr(n, W)
+        exact = dit_mirror(indptr, indices, data, scores, fluid, damping, n_iter, tol)
+        cases.append(dict(fam=fam, exact=exact, nontrivial=len(indices) > 0 and n_iter > 0 and any(fluid),
+                          args=dict(indptr=indptr, indices=indices, data=[float(x) for x in data], scores=[float(x) for x in scores],
+                                    fluid=[float(x) for x in fluid], damping=float(damping), n_iter=n_iter, tol=float(tol)),
+                          expr='kmap sh_dit (Safety.diteration %s %s %s %s %s %s %d %s)' % (
+                              nl(indptr), nl(indices), ql(data), ql(scores), ql(fluid), cq(damping), n_iter, cq(tol))))
+
+    def params(n):
+        damping = rng.choice([Fr(1, 2), Fr(1, 2), Fr(3, 4), Fr(1, 4), Fr(7, 8), Fr(0), Fr(1)])
+        n_iter = rng.choice([0, 1, 1, 2, 2, 3, 4])
+        tol = rng.choice([Fr(0), Fr(0), Fr(1, 16), Fr(1, 4), Fr(1), Fr(2)])
+        if rng.random() < 0.6:     # the caller's start: scores = 0, fluid = (1 - damping) * seeds
+            k = rng.randrange(n) if n else 0
+            fluid = [(1 - damping) if i == k else Fr(0) for i in range(n)]
+            if rng.random() < 0.4:
+                fluid = [(1 - damping) * Fr(rng.randint(0, 2), 4) for _ in range(n)]
+            scores = [Fr(0)] * n
+        else:
+            fluid = [Fr(rng.randint(0, 4), rng.choice([1, 2, 4])) for _ in range(n)]
+            scores = [Fr(rng.randint(0, 3), rng.choice([1, 2])) for _ in range(n)]
+        return scores, fluid, damping, n_iter, tol
+    exh = list(exhaustive_directed(3))
+    for fam, n, E in (rng.sample(exh, 150) if quick else exh):
+        add(fam, n, {e: Fr(rng.choice([1, 1, Fr(1, 2), Fr(1, 4)])) for e in E}, *params(n))
+    for _ in range(350 if quick else 3500):
+        fam, n, E = kgraph(rng, directed=rng.random() < 0.6)
+        u = rng.random()
+        if u < 0.4:       # row-stochastic with dyadic entries where the out-degrees allow, else unit weights
+            deg = {}
+            for (i, j) in E:
+                deg[i] = deg.get(i, 0) + 1
+            W = {(i, j): (Fr(1, deg[i]) if deg[i] & (deg[i] - 1) == 0 else Fr(1)) for (i, j) in E}
+            kind = 'stochastic'
+        else:
+            W, kind = weights(rng, E, symmetric=False, kind=rng.choice(['unit', 'int', 'eighth']))
+        add('%s_%s' % (fam, kind), n, W, *params(n))
+
+    def compare(c, mv, r):
+        if not c['exact']:
+            return 'dropped'
+        scores, fluid, residu, sweeps = mv
+        ms, mf = [fr_pair(p) for p in scores], [fr_pair(p) for p in fluid]
+        if [Fr(x) for x in r['scores']] != ms or [Fr(x) for x in r['fluid']] != mf or r['data_after'] != c['args']['data']:
+            return 'scores / fluid after the call', dict(scores=ms, fluid=mf, sweeps=sweeps), r
+    run_cases(ctx, impl, st, 'diffusion', 'diteration', cases, compare, 100)
+    return st
+
+
+# ---- 5b. push -------------------------------------------------------------------------------------------------------
+def push_mirror(n, degrees, indptr, indices, rev_indptr, rev_indices, seeds, damping, tol, argsort):
+    """Exact replay of the float operations of push_pagerank() for a given argsort answer; True iff every intermediate
+    value is a float32 (1 / degree must be dyadic too)."""
+    ok = [True]
+
+    def chk(x):
+        if not f32_ok(x):
+            ok[0] = False
+        return x
+    res = [Fr(0)] * n
+    for v in range(n):
+        for j in range(rev_indptr[v], rev_indptr[v + 1]):
+            d = degrees[rev_indices[j]]
+            if d == 0:
+                return False
+            res[v] = chk(res[v] + chk(Fr(1, d)))
+        res[v] = chk(res[v] * chk(chk(chk(1 - damping) * damping) * chk(1 + seeds[v])))
+    scores = [1 - damping] * n
+    work = list(argsort)
+    pops = 0
+    while work:
+        v = work.pop(0)
+        pops += 1
+        if pops > 4 * n + 4:
+            return False
+        scores[v] = chk(scores[v] + res[v])
+        for j in range(indptr[v], indptr[v + 1]):
+            nb = indices[j]
+            tmp = res[nb]
+            if degrees[v] == 0:
+                return False
+            res[nb] = chk(tmp + chk(chk(res[v] * chk(1 - damping)) / degrees[v]))
+            if res[nb] > tol > tmp:
+                work.append(nb)
+    return ok[0]
+
+
+def pow2_degree_graph(rng, n):
+    """Digraph whose out-degrees are 0, 1, 2, 4 or 8 (1 / degree is then exact in binary)."""
+    E = set()
+    for i in range(n):
+        d = rng.choice([d for d in (0, 1, 1, 2, 2, 4, 8) if d <= n])
+        for j in rng.sample(range(n), d):
+            E.add((i, j))
+    return E
+
+
+def k_push(ctx, impl, rng, quick):
+    st = KStats('push_pagerank', 'exact (out-degrees powers of two, dyadic seeds / damping / tol; an input whose exact trajectory '
+                'leaves float32 is dropped and counted); compared before the final numpy normalisation; 1 OpenMP thread',
+                'direct (argsort answer recorded from the call and handed to the model)')
+    pre = []
+    for _ in range(330 if quick else 3300):
+        u = rng.random()
+        if u < 0.35:
+            fam, n, E = tie_shape(rng)
+        elif u < 0.5:
+            fam, n, E = kgraph(rng, directed=True)
+        else:
+            n = rng.randint(1, 10)
+            fam, E = 'rnd_pow2deg', pow2_degree_graph(rng, n)
+        if n == 0:
+            continue
+        W = {e: 1 for e in E}
+        indptr, indices, _ = to_csr(n, W)
+        rev_indptr, rev_indices, _ = to_csr(n, transpose(n, W))
+        degrees = [indptr[i + 1] - indptr[i] for i in range(n)]
+        if any(d & (d - 1) for d in degrees):
+            continue
+        damping = rng.choice([Fr(1, 2), Fr(1, 2), Fr(3, 4), Fr(1, 4), Fr(7, 8)])
+        tol = rng.choice([Fr(1, 4), Fr(1, 8), Fr(1, 16), Fr(1, 64), Fr(1, 256), Fr(1)])
+        if rng.random() < 0.5:
+            seeds = [Fr(1, 8) * rng.randint(0, 3) for _ in range(n)]
+        else:
+            k = rng.randrange(n)
+            seeds = [Fr(1) if i == k else Fr(0) for i in range(n)]
+        args = dict(n=n, degrees=degrees, indptr=indptr, indices=indices, rev_indptr=rev_indptr, rev_indices=rev_indices,
+                    seeds=[float(x) for x in seeds], damping=float(damping), tol=float(tol))
+        pre.append(dict(fam=fam, args=args, seeds=seeds, damping=damping, tol=tol, nontrivial=len(indices) > 0))
+    # the argsort answer is an ORACLE of the model: the kernel runs first here (its inputs are well formed: the model of the
+    # first loop is evaluated on them as well and must not report an out-of-bounds access)
+    cases = []
+    for c in pre:
+        a = c['args']
+        r = impl.call('c17', 'push', a, timeout=K_TIMEOUT)
+        ctx.traces += 1
+        ctx.count('kernel:push_pagerank:' + c['fam'], ('push', a), c['nontrivial'])
+        st.d['evaluated'] += 1
+        case = dict(kernel='push_pagerank', family=c['fam'], args=a)
+        if 'hang' in r or 'crash' in r:
+            st.d['violations'] += 1
+            ctx.violation('push_pagerank', 'the compiled kernel %s (the model returns within 2 n pops for every argsort answer: '
+                          'push_terminates)' % ('does not return' if 'hang' in r else 'killed the interpreter'), case=case,
+                          kind='hang' if 'hang' in r else 'crash', family=c['fam'], kernel_call=True)
+            continue
+        if 'ok' not in r:
+            st.d['violations'] += 1
+            ctx.violation('push_pagerank', 'the compiled kernel raised', case=case, kind='model_correspondence', family=c['fam'],
+                          observed=r)
+            continue
+        c['impl'] = r['ok']
+        order = r['ok']['argsort']
+        if sorted(order) != list(range(a['n'])):
+            st.d['violations'] += 1
+            ctx.violation('push_pagerank', 'np.argsort answer is not a permutation of the nodes (contract of push_terminates)',
+                          case=case, kind='model_correspondence', family=c['fam'], observed=order)
+            continue
+        c['exact'] = push_mirror(a['n'], a['degrees'], a['indptr'], a['indices'], a['rev_indptr'], a['rev_indices'], c['seeds'],
+                                 c['damping'], c['tol'], order)
+        c['expr'] = ('(kmap (map qp) (Safety.push_init (seq 0 %d) %s %s %s %s %s (repeat 0%%Q %d)), '
+                     'kmap (map qp) (Safety.push_pagerank (Safety2.push_fuel %d) %d %s %s %s %s %s %s %s %s (fun _ => %s)))' % (
+                         a['n'], nl(a['rev_indptr']), nl(a['rev_indices']), nl(a['degrees']), ql(c['seeds']), cq(c['damping']), a['n'],
+                         a['n'], a['n'], nl(a['degrees']), nl(a['indptr']), nl(a['indices']), nl(a['rev_indptr']),
+                         nl(a['rev_indices']), ql(c['seeds']), cq(c['damping']), cq(c['tol']), nl(order)))
+        cases.append(c)
+    vals = coq_eval('c17k_push', K_IMPORTS, [c['expr'] for c in cases], prelude=K_PRELUDE, shard=100, timeout=900) if cases else []
+    for c, (v0, v1) in zip(cases, vals):
+        case = dict(kernel='push_pagerank', family=c['fam'], args=c['args'], argsort=c['impl']['argsort'])
+        (t0, m0), (t1, m1) = kres_of(v0), kres_of(v1)
+        if t0 != 'ok' or t1 != 'ok':
+            st.d['violations'] += 1
+            ctx.violation('push_pagerank', 'the flat model returns %s / %s inside the contract of push_terminates (fuel 2 n)' % (t0, t1),
+                          case=case, kind='model_envelope', family=c['fam'], expected='KOk', observed=common.jsonable([v0, v1]))
+            continue
+        if not c['exact']:
+            st.d['dropped_inexact'] += 1
+            ctx.margin_dropped += 1
+            continue
+        st.d['compared'] += 1
+        res0 = [-fr_pair(p) for p in m0]
+        sc = [fr_pair(p) for p in m1]
+        got0 = [Fr(x) for x in c['impl']['neg_residuals']]
+        got = [Fr(x) for x in c['impl']['scores']]
+        if got0 != res0 or got != sc or c['impl']['seeds_after'] != c['args']['seeds']:
+            st.d['violations'] += 1
+            ctx.violation('push_pagerank', 'compiled kernel differs from its flat model: ' +
+                          ('residuals after the first loop' if got0 != res0 else 'scores before the normalisation'), case=case,
+                          kind='model_correspondence', family=c['fam'],
+                          expected=common.jsonable(dict(neg_residuals=res0, scores=sc)), observed=c['impl'])
+        else:
+            st.d['agree'] += 1
+            if st.d['agree'] == 1:
+                ctx.sample(dict(kind='kernel_correspondence', kernel='push_pagerank', family=c['fam'], args=c['args'],
+                                model=common.jsonable(sc)), limit=20)
+    return st
+
+
+# ---- 9.1 Weisfeiler-Lehman ------------------------------------------------------------------------------------------
+def k_wl(ctx, impl, rng, quick):
+    st = KStats('weisfeiler_lehman_coloring', 'exact (hashes are sums of at most 10 small dyadic numbers in float64; std::sort '
+                'is the insertion sort Wl.wl_sort by the same comparison: the result does not depend on the order of equal keys)',
+                'direct')
+    cases = []
+
+    def add(fam, n, E, labels, powers, max_iter):
+        indptr, indices, _ = to_csr(n, {e: 1 for e in E})
+        cases.append(dict(fam=fam, nontrivial=len(indices) > 0 and max_iter > 0,
+                          args=dict(indptr=indptr, indices=indices, labels=labels, powers=[float(p) for p in powers], max_iter=max_iter),
+                          expr='Safety2.wl_kernel %d Wl.wl_sort %s %s %s %s %d' % (max_iter, nl(indptr), nl(indices), nl(labels), ql(powers), max_iter)))
+
+    def powers_for(n):
+        u = rng.random()
+        if u < 0.4:
+            return [Fr(2) ** k for k in range(n)]
+        if u < 0.7:
+            return [Fr(-1, 2) ** k * 64 for k in range(n)]          # alternating signs, as the caller's (-pi / 3.15) ** k
+        return [Fr(rng.randint(-8, 8), 4) for _ in range(n)]         # collisions allowed
+    exh = [g for g in exhaustive_directed(3) if g[1] >= 1]
+    for fam, n, E in (rng.sample(exh, 200) if quick else exh):
+        add(fam, n, E, [0] * n, powers_for(n), rng.randint(0, n))
+    add('exh_0', 0, set(), [], [], 0)
+    for _ in range(400 if quick else 4000):
+        fam, n, E = kgraph(rng, directed=rng.random() < 0.3)
+        if n == 0:
+            continue
+        u = rng.random()
+        if u < 0.6:
+            labels = [0] * n
+        else:                                                         # are_isomorphic: the output of a previous call
+            labels = [rng.randrange(n) for _ in range(n)]
+        add(fam, n, E, labels, powers_for(n), rng.choice([0, 1, 1, 2, n, n]))
+
+    def compare(c, mv, r):
+        labels, changed, rounds = mv
+        if r['ret'] != list(labels) or r['labels_after'] != list(labels) or r['changed'] != changed \
+                or r['powers_after'] != c['args']['powers']:
+            return 'labels / has_changed', dict(labels=list(labels), changed=changed, rounds=rounds), r
+    run_cases(ctx, impl, st, 'weisfeiler_lehman_coloring', 'wl', cases, compare, 150)
+    return st
+
+
+# ---- 9.2 Brandes ----------------------------------------------------------------------------------------------------
+def brandes_mirror(n, indptr, indices):
+    """True iff every float operation of the back-propagation is exact (sigma ratios dyadic, delta values float32)."""
+    for s in range(n):
+        sigma, dist, preds = [0] * n, [-1] * n, [[] for _ in range(n)]
+        sigma[s], dist[s] = 1, 0
+        queue, seen = [s], []
+        while queue:
+            i = queue.pop(0)
+            seen.append(i)
+            for j in indices[indptr[i]:indptr[i + 1]]:
+                if dist[j] < 0:
+                    dist[j] = dist[i] + 1
+                    queue.append(j)
+                if dist[j] == dist[i] + 1:
+                    sigma[j] += sigma[i]
+                    preds[j].append(i)
+        delta = [Fr(0)] * n
+        for j in reversed(seen):
+            for i in preds[j]:
+                ratio = Fr(sigma[i], sigma[j])
+                for x in (ratio, 1 + delta[j], ratio * (1 + delta[j]), delta[i] + ratio * (1 + delta[j])):
+                    if not f32_ok(x):
+                        return False
+                delta[i] = delta[i] + ratio * (1 + delta[j])
+    return True
+
+
+def k_brandes(ctx, impl, rng, quick):
+    st = KStats('Betweenness.fit', 'exact when every float32 operation of the back-propagation is exact (checked by a mirror), else '
+                'within rel/abs 2e-4 (float32 delta; the kernel takes no decision on a float); compared before the halving, '
+                'connectivity check disabled', 'direct')
+    cases = []
+
+    def add(fam, n, E):
+        indptr, indices, _ = to_csr(n, {e: 1 for e in E})
+        cases.append(dict(fam=fam, n=n, nontrivial=len(indices) > 0, exact=brandes_mirror(n, indptr, indices),
+                          args=dict(indptr=indptr, indices=indices),
+                          expr='kmap sh_br (Safety2.brandes_flat %s %s)' % (nl(indptr), nl(indices))))
+    for fam, n, E in exhaustive_directed(3):
+        add(fam, n, E)
+    for _ in range(250 if quick else 2500):
+        fam, n, E = kgraph(rng, directed=rng.random() < 0.35)
+        add(fam, n, E)
+
+    def compare(c, mv, r):
+        scores, log = mv
+        ms = [fr_pair(p) for p in scores]
+        n = c['n']
+        if len(log) != n or any(a > n or a != b for (a, b) in log):
+            return 'pop counts of the model outside the bounds of brandes_terminates', n, log
+        got = [Fr(x) for x in r['scores']]
+        if c['exact']:
+            if got != ms:
+                return 'scores (exact arithmetic expected on this input)', ms, r
+            return None
+        if len(got) != len(ms) or any(abs(a - b) > Fr(TOL32) * max(1, abs(b)) for a, b in zip(got, ms)):
+            return 'scores beyond the float32 tolerance', ms, r
+        return 'tolerance'
+    run_cases(ctx, impl, st, 'Betweenness.fit', 'brandes', cases, compare, 100)
+    return st
+
+
+# ---- 7. / 9.3 Louvain and Leiden kernels ----------------------------------------------------------------------------
+def cluster_sums(n, labels, w, m=None):
+    out = [Fr(0)] * (m if m is not None else n)
+    for i in range(n):
+        out[labels[i]] += w[i]
+    return out
+
+
+def modularity_bits(n, data, sl, ow, iw, ocw, icw, res, extra=0):
+    """Conservative: every intermediate float of optimize_core / optimize_refine_core is a multiple of 2^-G of magnitude <= M;
+    True iff M * 2^G < 2^24 (then all of them are float32 values)."""
+    gd, gw, gr = gran(list(data) + list(sl)), gran(list(ow) + list(iw) + list(ocw) + list(icw)), gran([res])
+    if gd is None or gw is None or gr is None:
+        return False
+    G = max(gd, gr + 2 * gw)
+    Wd = sum(abs(x) for x in data) + max([abs(x) for x in sl] + [0])
+    a = max([abs(x) for x in list(ow) + list(iw)] + [0])
+    C = max(sum(abs(x) for x in ocw) + sum(abs(x) for x in ow), sum(abs(x) for x in icw) + sum(abs(x) for x in iw))
+    M = 2 * (2 * Wd + 2 * abs(res) * a * (C + a)) + 2 * Wd + C
+    M = max(M, extra)
+    return M * 2 ** G < 2 ** 24
+
+
+def sym_case(rng, exhaustive=None):
+    """Symmetric weighted graph in the convention of Louvain._optimize / Leiden._optimize_refine."""
+    if exhaustive is not None:
+        fam, n, E = exhaustive
+    else:
+        fam, n, E = kgraph(rng, directed=False)
+        E = E | {(j, i) for (i, j) in E}
+    W, kind = weights(rng, E, symmetric=True)
+    indptr, indices, data = to_csr(n, W)
+    rows = [sum((W[(i, j)] for j in indices[indptr[i]:indptr[i + 1]]), Fr(0)) for i in range(n)]
+    scale = rng.choice([Fr(1), Fr(1), Fr(1, 2), Fr(1, 8)])
+    ow = [x * scale for x in rows]
+    sl = [W.get((i, i), Fr(0)) for i in range(n)]
+    return '%s_%s' % (fam, kind), n, indptr, indices, data, ow, list(ow), sl
+
+
+RESOLUTIONS = [Fr(0), Fr(1, 2), Fr(1), Fr(1), Fr(2)]
+
+
+def all_symmetric(nmax):
+    for n in range(0, nmax + 1):
+        if n == 0:
+            yield 'exh_0', 0, set()
+            continue
+        for E in gen.all_undirected(n):
+            S = set(E) | {(j, i) for (i, j) in E}
+            yield 'exh_%d' % n, n, S
+            if n <= 3:
+                for mask in range(1, 2 ** n):
+                    yield 'exh_%d_loops' % n, n, S | {(i, i) for i in range(n) if mask >> i & 1}
+
+
+def k_louvain(ctx, impl, rng, quick):
+    st = KStats('optimize_core', 'exact (weights small integers or eighths, resolution in {0, 1/2, 1, 2}, dyadic tolerance; a bound on '
+                'the bits of every intermediate is checked, an input beyond it is dropped and counted)',
+                'direct; also optimize_core_flat_refines (Props/C17.v section 8) to Model/Louvain.v, which the C06 correspondence ties')
+    cases = []
+
+    def add(fam, n, indptr, indices, data, ow, iw, sl, labels, res, tol, contract, ocw=None, icw=None):
+        ocw = cluster_sums(n, labels, ow) if ocw is None else ocw
+        icw = cluster_sums(n, labels, iw) if icw is None else icw
+        cw = [Fr(0)] * n
+        common_args = '%s %s %s %s %s %s %s %s %s %s %s %s' % (nl(labels), nl(indices), nl(indptr), ql(data), ql(ow), ql(iw), ql(ocw),
+                                                           ql(icw), ql(cw), ql(sl), cq(res), cq(tol))
+        if contract:
+            fuel = '(lv_fuel %d %s %s %s %s %s %s %s %s)' % (n, nl(indptr), nl(indices), ql(data), ql(ow), ql(iw), cq(res), cq(tol), nl(labels))
+        else:
+            fuel = '200'
+        cases.append(dict(fam=fam, contract=contract, nontrivial=len(indices) > 0,
+                          bits=(n, data, sl, ow, iw, ocw, icw, res),
+                          args=dict(labels=labels, indices=indices, indptr=indptr, data=[float(x) for x in data], ow=[float(x) for x in ow],
+                                    iw=[float(x) for x in iw], ocw=[float(x) for x in ocw], icw=[float(x) for x in icw],
+                                    cw=[0.0] * n, self_loops=[float(x) for x in sl], resolution=float(res), tol=float(tol)),
+                          expr='kmap sh_lv (Safety.optimize_core %s %s)' % (fuel, common_args)))
+
+    def one(g, k):
+        fam, n, indptr, indices, data, ow, iw, sl = sym_case(rng, g)
+        res = RESOLUTIONS[k % len(RESOLUTIONS)]
+        u = rng.random()
+        if u < 0.7 or n == 0:
+            labels = list(range(n))                                    # Louvain._optimize
+        else:
+            labels = [rng.randrange(n) for _ in range(n)]              # a later call of Leiden._optimize
+        tol = rng.choice([Fr(1, 1024), Fr(1, 128), Fr(1, 8), Fr(1), Fr(0)])
+        add(fam, n, indptr, indices, data, ow, iw, sl, labels, res, tol, contract=tol > 0)
+    exh = list(all_symmetric(4))
+    for k, g in enumerate(rng.sample(exh, 160) if quick else exh):
+        one(g, k)
+    for k in range(260 if quick else 2600):
+        one(None, k)
+    # outside the contract of the termination theorem (optimize_core_safe: in bounds for EVERY fuel): directed graphs,
+    # arbitrary node weights; the kernel is only run when the model returns within 200 passes
+    for k in range(60 if quick else 600):
+        fam, n, E = kgraph(rng, directed=True)
+        W, kind = weights(rng, E, symmetric=False)
+        indptr, indices, data = to_csr(n, W)
+        ow = [Fr(rng.randint(0, 6), 2) for _ in range(n)]
+        iw = [Fr(rng.randint(0, 6), 2) for _ in range(n)]
+        sl = [Fr(rng.randint(0, 2)) for _ in range(n)]
+        labels = [rng.randrange(n) for _ in range(n)] if rng.random() < 0.5 else list(range(n))
+        add('%s_%s_general' % (fam, kind), n, indptr, indices, data, ow, iw, sl, labels, RESOLUTIONS[k % 5],
+            rng.choice([Fr(1, 8), Fr(1), Fr(0)]), contract=False)
+
+    def compare(c, mv, r):
+        labels, inc, passes = mv
+        inc = fr_pair(inc)
+        if not modularity_bits(*c['bits'], extra=abs(inc)):
+            return 'dropped'
+        if r['ret'] != list(labels) or r['labels_after'] != list(labels) or Fr(r['increase']) != inc or any(r['cw']):
+            return 'labels / increase', dict(labels=list(labels), increase=inc, passes=passes), r
+    run_cases(ctx, impl, st, 'optimize_core', 'louvain_core', cases, compare, 60)
+    return st
+
+
+def k_leiden(ctx, impl, rng, quick):
+    st = KStats('optimize_refine_core', 'exact (same inputs and bit bound as optimize_core); the libc rand() stream is fixed by srand(seed), '
+                'recorded, and handed to the model (reduced modulo 2520, which preserves rand() %% s for every s <= 10); fuel '
+                'min(n^n + 1, %d)' % LEIDEN_FUEL_CAP, 'direct')
+    pre = []
+
+    def add(fam, n, indptr, indices, data, ow, iw, sl, labels, res, contract):
+        lr = list(range(n))
+        pre.append(dict(fam=fam, contract=contract, n=n, nontrivial=len(indices) > 0, bits=(n, data, sl, ow, iw, ow, iw, res),
+                        q=dict(indptr=indptr, indices=indices, data=data, ow=ow, iw=iw, sl=sl, res=res, labels=labels, lr=lr),
+                        args=dict(labels=labels, labels_refined=lr, indices=indices, indptr=indptr, data=[float(x) for x in data],
+                                  ow=[float(x) for x in ow], iw=[float(x) for x in iw], ocw=[float(x) for x in ow],
+                                  icw=[float(x) for x in iw], cw=[0.0] * n, self_loops=[float(x) for x in sl],
+                                  resolution=float(res), seed=rng.randrange(1, 2 ** 31), K=600)))
+
+    def one(g, k):
+        fam, n, indptr, indices, data, ow, iw, sl = sym_case(rng, g)
+        u = rng.random()
+        if u < 0.35:
+            labels = [0] * n
+        elif u < 0.75:
+            labels = [rng.randrange(max(1, n // 2)) for _ in range(n)]
+        else:
+            labels = [rng.randrange(n) for _ in range(n)] if n else []
+        add(fam, n, indptr, indices, data, ow, iw, sl, labels, RESOLUTIONS[k % len(RESOLUTIONS)], True)
+    exh = list(all_symmetric(4))
+    for k, g in enumerate(rng.sample(exh, 160) if quick else exh):
+        one(g, k)
+    for k in range(260 if quick else 2600):
+        one(None, k)
+    for k in range(50 if quick else 500):
+        fam, n, E = kgraph(rng, directed=True)
+        W, kind = weights(rng, E, symmetric=False)
+        indptr, indices, data = to_csr(n, W)
+        ow = [Fr(rng.randint(0, 6), 2) for _ in range(n)]
+        iw = [Fr(rng.randint(0, 6), 2) for _ in range(n)]
+        sl = [Fr(rng.randint(0, 2)) for _ in range(n)]
+        add('%s_%s_general' % (fam, kind), n, indptr, indices, data, ow, iw, sl, [rng.randrange(max(1, n // 2)) for _ in range(n)],
+            RESOLUTIONS[k % 5], False)
+    # the rand() stream is an ORACLE of the model, recorded from the run of the kernel. Inside the contract the kernel is run
+    # first (leiden_refine_safe: no out-of-bounds access for ANY stream); outside it the model is first asked, with the
+    # all-zero stream, whether any access is out of bounds.
+    guard = [c for c in pre if not c['contract']]
+    if guard:
+        gv = coq_eval('c17k_leiden_guard', K_IMPORTS, [leiden_expr(c, [0], 60) for c in guard], prelude=K_PRELUDE, shard=60)
+        for c, v in zip(guard, gv):
+            c['guard'] = kres_of(v)[0]
+    cases = []
+    for c in pre:
+        st.d['evaluated'] += 1
+        ctx.count('kernel:optimize_refine_core:' + c['fam'], ('leiden', c['args']), c['nontrivial'])
+        case = dict(kernel='optimize_refine_core', family=c['fam'], args=c['args'])
+        if not c['contract']:
+            st.d['outside_contract'] += 1
+            if c['guard'] != 'ok':
+                st.d['kernel_not_run_model_oob' if c['guard'] == 'oob' else 'kernel_not_run_model_out_of_fuel'] += 1
+                continue
+        r = impl.call('c17', 'leiden_refine', c['args'], timeout=K_TIMEOUT)
+        ctx.traces += 1
+        if 'hang' in r or 'crash' in r:
+            if c['contract']:
+                st.d['violations'] += 1
+                ctx.violation('optimize_refine_core', 'the compiled kernel %s on an input inside the contract of leiden_refine_terminates '
+                              '(exact dyadic arithmetic: every accepted move strictly increases the objective)'
+                              % ('does not return within %.0f s' % K_TIMEOUT if 'hang' in r else 'killed the interpreter'),
+                              case=case, kind='hang' if 'hang' in r else 'crash', family=c['fam'], kernel_call=True)
+            else:
+                st.d['kernel_not_run_model_out_of_fuel'] += 1
+            continue
+        if 'ok' not in r:
+            st.d['violations'] += 1
+            ctx.violation('optimize_refine_core', 'the compiled kernel raised', case=case, kind='model_correspondence', family=c['fam'], observed=r)
+            continue
+        o = r['ok']
+        if not o['reseed_ok'] or o['draws'] is None:
+            ctx.notes.append('optimize_refine_core: rand() stream not reproduced after srand (draws=%r): case skipped' % o['draws'])
+            continue
+        c['impl'] = o
+        n = c['n']
+        fuel = min(n ** n + 1, LEIDEN_FUEL_CAP) if c['contract'] else 200
+        c['expr'] = leiden_expr(c, [x % LCM10 for x in o['stream']], fuel)
+        cases.append(c)
+    vals = coq_eval('c17k_leiden', K_IMPORTS, [c['expr'] for c in cases], prelude=K_PRELUDE, shard=60, timeout=900) if cases else []
+    for c, v in zip(cases, vals):
+        o = c['impl']
+        case = dict(kernel='optimize_refine_core', family=c['fam'], args=c['args'], rand_stream=o['stream'], draws=o['draws'])
+        tag, mv = kres_of(v)
+        if tag != 'ok':
+            st.d['violations'] += 1
+            ctx.violation('optimize_refine_core', 'the flat model returns %s where the compiled kernel returns (same rand() stream)' % tag,
+                          case=case, kind='model_envelope' if c['contract'] else 'model_correspondence', family=c['fam'],
+                          expected=o, observed=common.jsonable(v))
+            continue
+        if not modularity_bits(*c['bits']):
+            st.d['dropped_inexact'] += 1
+            ctx.margin_dropped += 1
+            continue
+        st.d['compared'] += 1
+        lr, passes = mv
+        if o['ret'] != list(lr) or o['lr_after'] != list(lr) or o['labels_after'] != c['args']['labels'] or any(o['cw']) \
+                or o['draws'] > passes * max(c['n'], 1):
+            st.d['violations'] += 1
+            ctx.violation('optimize_refine_core', 'compiled kernel differs from its flat model: refined labels', case=case,
+                          kind='model_correspondence', family=c['fam'], expected=dict(labels_refined=list(lr), passes=passes), observed=o)
+        else:
+            st.d['agree'] += 1
+            if st.d['agree'] == 1:
+                ctx.sample(dict(kind='kernel_correspondence', kernel='optimize_refine_core', family=c['fam'], args=c['args'],
+                                rand_stream=o['stream'], model=[list(lr), passes]), limit=20)
+    return st
+
+
+def leiden_expr(c, stream, fuel):
+    q = c['q']
+    n = c['n']
+    return 'Safety2.optimize_refine_core %d (fun k => nth k %s 0) %s %s %s %s %s %s %s %s %s %s %s %s' % (
+        fuel, nl(stream), nl(q['labels']), nl(q['lr']), nl(q['indices']), nl(q['indptr']), ql(q['data']), ql(q['ow']), ql(q['iw']),
+        ql(q['ow']), ql(q['iw']), ql([Fr(0)] * n), ql(q['sl']), cq(q['res']))
+
+
+# ---- 6. Propagation.fit: the driver loop ----------------------------------------------------------------------------
+def k_propagation(ctx, impl, rng, quick):
+    st = KStats('Propagation.fit', 'exact (integer labels; votes are sums of small integers); the arguments of the first vote_update call '
+                '(CSR arrays, index_remain, initial labels) are recorded from the run and handed to the model; finite n_iter = m: '
+                'fuel m; default n_iter: fuel 40, the kernel is run only if the model returns',
+                'direct (driver loop); its sweep is Model/Vote.v (tied above and by C13)')
+    cases = []
+    for k in range(160 if quick else 1600):
+        if rng.random() < 0.5:
+            spec, n = oscillating(rng)
+            fam = 'oscillating'
+        else:
+            fam, n, E = kgraph(rng, directed=rng.random() < 0.5)
+            if n < 2:
+                continue
+            W, kind = weights(rng, E, symmetric=False, kind=rng.choice(['unit', 'int']))
+            spec = dict(shape=[n, n], coo=[[i, j, int(w)] for (i, j), w in sorted(W.items())], dtype='int', fmt='csr')
+        seeds = {}
+        for s in rng.sample(range(n), min(n, rng.randint(1, 3))):
+            seeds[s] = rng.choice([0, 1, 1, 2, n + 3])
+        m = rng.choice([0, 1, 2, 3, 5, 8, -1])
+        weighted = rng.random() < 0.8
+        # the model needs index_remain and the initial labels: node_order=None -> the unlabelled nodes in increasing order
+        labels0 = [seeds.get(i, -1) for i in range(n)]
+        if len(set(labels0)) == n and min(labels0) >= 0:
+            index = list(range(n))
+        else:
+            index = [i for i in range(n) if labels0[i] < 0]
+        W = {(e[0], e[1]): Fr(e[2]) for e in spec['coo']}
+        indptr, indices, data = to_csr(n, W)
+        if not weighted:
+            data = [Fr(1)] * len(indices)
+        args = dict(m=spec, labels={'dict': sorted(seeds.items())}, n_iter=m, node_order=None, weighted=weighted)
+        fuel, nit = (m, '(Some %d)' % m) if m >= 0 else (40, 'None')
+        cases.append(dict(fam='%s_%s' % (fam, 'default' if m < 0 else 'finite'), contract=(m >= 0), args=args, n=n,
+                          first=dict(indptr=indptr, indices=indices, data=[float(x) for x in data], labels=labels0, index=index),
+                          expr='Safety.propagation_fit %d %s %s %s %s %s %s' % (fuel, nit, nl(indptr), nl(indices), ql(data), nl(index), zl(labels0))))
+
+    def compare(c, mv, r):
+        labels, t = mv
+        if r.get('first') is not None and r['first'] != c['first']:
+            return 'arguments of the first vote_update call (harness reconstruction of the caller)', c['first'], r['first']
+        if r['labels'] != list(labels) or r['sweeps'] != t:
+            return 'labels / number of sweeps', dict(labels=list(labels), sweeps=t), dict(labels=r['labels'], sweeps=r['sweeps'])
+    run_cases(ctx, impl, st, 'Propagation.fit', 'propagation', cases, compare, 80, mod='c13')
+    return st
+
+
+# ---- 4. / 9.6: models tied by another property's correspondence: light runs -----------------------------------------
+def k_bfs_light(ctx, impl, rng, quick):
+    from . import c10
+    st = KStats('get_distances', 'exact (integers)', 'via the C10 correspondence (same definitions Bfs.bfs / Bfs.get_distances); light run')
+    cases = []
+    for _ in range(40 if quick else 400):
+        fam, n, E = kgraph(rng, directed=rng.random() < 0.5)
+        if n == 0:
+            continue
+        E = sorted(E)
+        S = sorted(rng.sample(range(n), rng.randint(1, min(2, n))))
+        tr = rng.random() < 0.3
+        cases.append(dict(fam=fam, args=dict(m=c10.mspec(n, n, E), source=S, source_row=None, source_col=None, transpose=tr,
+                                             force_bipartite=False),
+                          expr='get_distances %s %s None None %s false' % (c10.pmat(n, n, E), c10.src_lit(S), cbool(tr))))
+    vals = coq_eval('c17k_bfs', ['Base.Util', 'Model.Bfs'], [c['expr'] for c in cases], shard=100)
+    for c, v in zip(cases, vals):
+        st.d['evaluated'] += 1
+        ctx.count('kernel:get_distances:' + c['fam'], ('bfs', c['args']), True)
+        exp = c10.conv_dist(v)
+        r = impl.call('c10', 'distances', c['args'], timeout=K_TIMEOUT)
+        ctx.traces += 1
+        case = dict(kernel='get_distances', family=c['fam'], args=c['args'])
+        if 'hang' in r or 'crash' in r:
+            st.d['violations'] += 1
+            ctx.violation('get_distances', 'does not return / crashes where the model returns', case=case,
+                          kind='hang' if 'hang' in r else 'crash', family=c['fam'], kernel_call=True, expected=exp)
+            continue
+        st.d['compared'] += 1
+        if c10.canon_impl(r) != exp:
+            st.d['violations'] += 1
+            ctx.violation('get_distances', 'implementation differs from the model', case=case, kind='model_correspondence',
+                          family=c['fam'], expected=exp, observed=r)
+        else:
+            st.d['agree'] += 1
+    return st
+
+
+def k_paris_light(ctx, impl, rng, quick):
+    from . import c07
+    st = KStats('paris', 'status only (model returns a dendrogram of n - 1 rows iff the code does; heights and merges are compared by C07)',
+                'via the C07 correspondence (Model/Paris.v: exact and IEEE models) + paris_source_tie_exact (Gen/ParisSrc.v); light run')
+    cases = []
+    for _ in range(24 if quick else 240):
+        fam, n, E = kgraph(rng, directed=False, nmax=8, loops=False)
+        und = sorted({(min(i, j), max(i, j)) for (i, j) in E if i != j})
+        if n < 2 or not und:
+            continue
+        wk = rng.choice([1, 1, 3])
+        coo = c07.und([(i, j, rng.randint(1, wk)) for (i, j) in und])
+        degree = rng.random() < 0.5
+        cases.append(dict(fam=fam, n=n, args=dict(algo='Paris', opts=dict(weights='degree' if degree else 'uniform', reorder=False),
+                                                  m=c07.spec(n, n, coo)),
+                          expr='cvp (paris_src exact %s %s false %d %s)' % (cq(c07.HINF), cbool(degree), n, c07.centries(coo))))
+    vals = coq_eval('c17k_paris', c07.IMPORTS, [c['expr'] for c in cases], prelude=c07.PRELUDE, shard=12)
+    for c, v in zip(cases, vals):
+        st.d['evaluated'] += 1
+        ctx.count('kernel:paris:' + c['fam'], ('paris', c['args']), True)
+        r = impl.call('c07', 'fit', c['args'], timeout=K_TIMEOUT)
+        ctx.traces += 1
+        case = dict(kernel='paris', family=c['fam'], args=c['args'])
+        if 'hang' in r or 'crash' in r:
+            st.d['violations'] += 1
+            ctx.violation('paris', 'does not return / crashes', case=case, kind='hang' if 'hang' in r else 'crash', family=c['fam'],
+                          kernel_call=True, expected=common.jsonable(v))
+            continue
+        st.d['compared'] += 1
+        m_ok = v[0] == 'Ok' and len(v[1][0]) == c['n'] - 1
+        i_ok = 'ok' in r and len(r['ok']['dendrogram']['rows']) == c['n'] - 1
+        if m_ok != i_ok:
+            st.d['violations'] += 1
+            ctx.violation('paris', 'model and code disagree on whether a full dendrogram is returned', case=case,
+                          kind='model_correspondence', family=c['fam'], expected=common.jsonable(v), observed=r)
+        else:
+            st.d['agree'] += 1
+    return st
+
+
+KERNELS = [k_triangles, k_vote, k_core, k_diteration, k_push, k_propagation, k_louvain, k_wl, k_brandes, k_leiden,
+           k_bfs_light, k_paris_light]
+
+
+def kernel_correspondence(ctx, scratch):
+    import time
+    rng = ctx.rng
+    quick = ctx.tier == 'quick'
+    t0 = time.time()
+    out = {}
+    impl = Impl(scratch, threads=1)      # one OpenMP thread: the prange loops of push_pagerank run in index order, as in the model
+    try:
+        for k in KERNELS:
+            t = time.time()
+            st = k(ctx, impl, rng, quick)
+            d = st.as_dict()
+            d['wall_s'] = round(time.time() - t, 1)
+            out[st.name] = d
+    finally:
+        impl.close()
+    out['_models_tied_elsewhere'] = {
+        'Louvain.leiden_fit (Props/C17.v section 11)': 'C06 correspondence (Model/Louvain.v leiden_fit with the recorded refinement answers)',
+        'Paris.paris_core / paris_run (sections 9.6, 10)': 'C07 correspondence; light status run here',
+        'Bfs.bfs / get_distances (section 4)': 'C10 correspondence; light run here',
+    }
+    out['_wall_s'] = round(time.time() - t0, 1)
+    ctx.extra['kernel_correspondence'] = out
